@@ -48,7 +48,7 @@ ASSUMPTIONS = ['a request shorter than 5 bytes has no id and cannot be '
 REQUIRED = ['server_requests', 'ids_matched', 'truncated_bodies',
             'unknown_types', 'probe_ok', 'status_mapping_checked',
             'client_calls', 'client_hostile_replies', 'codec_round_trips',
-            'pipelined_batches']
+            'pipelined_batches', 'abandoned_requests']
 BUDGET_S = {'quick': 300, 'thorough': 3400}
 CASE_TIMEOUT_S = 60
 
@@ -120,7 +120,9 @@ def gen_cases(tier, seed):
                           'use_handle': False, 'pipeline': 1,
                           'cseed': rng.randrange(1 << 30)})
         for errno_case in ('enoent', 'eacces_like', 'eexist', 'notempty',
-                           'isdir'):
+                           'isdir', 'enotdir_stat',
+                           'enotdir_lstat', 'enotdir_rmdir', 'eexist_exact',
+                           'notempty_exact'):
             cases.append({'kind': 'status', 'version': version,
                           'what': errno_case,
                           'cseed': rng.randrange(1 << 30)})
@@ -134,6 +136,7 @@ def gen_cases(tier, seed):
                                              'duplicate', 'wrong_type',
                                              'ok_for_data']),
                       'version': rng.choice([3, 3, 4, 6]),
+                      'cancel': rng.choice([0, 0, 1, 2]),
                       'cseed': rng.randrange(1 << 30)})
 
     for version in (3, 4, 5, 6):
@@ -357,6 +360,21 @@ def _run_status(case, mon, viol):
                                 {4, 19, 2, 10, 3}),
                 'eexist': (F.FXP_MKDIR, sstr(b'/a') + a3, {4, 11}),
                 'enotdir': (F.FXP_OPENDIR, sstr(b'/f.txt'), {4, 19, 2, 10}),
+                # a regular file as a non-final path component: the
+                # documented downgrade is NOT_A_DIRECTORY -> NO_SUCH_FILE
+                # below version 6
+                'enotdir_stat': (F.FXP_STAT, sstr(b'/f.txt/child') +
+                                 (u32(0) if version >= 4 else b''),
+                                 {19} if version >= 6 else {2}),
+                'enotdir_lstat': (F.FXP_LSTAT, sstr(b'/f.txt/child') +
+                                  (u32(0) if version >= 4 else b''),
+                                  {19} if version >= 6 else {2}),
+                'enotdir_rmdir': (F.FXP_RMDIR, sstr(b'/f.txt/child'),
+                                  {19} if version >= 6 else {2}),
+                'eexist_exact': (F.FXP_MKDIR, sstr(b'/a') + a3,
+                                 {11} if version >= 4 else {4}),
+                'notempty_exact': (F.FXP_RMDIR, sstr(b'/full'),
+                                   {18} if version >= 6 else {4}),
                 'notempty': (F.FXP_RMDIR, sstr(b'/full'), {4, 18}),
                 'isdir': (F.FXP_REMOVE, sstr(b'/a'), {4, 24, 3}),
             }[what]
@@ -372,8 +390,9 @@ def _run_status(case, mon, viol):
                 return
             mon['ids_matched'] += 1
             code = Rd(got[0][1]).u32()
-            allowed = req[2] if version >= 4 else {c for c in req[2]
-                                                   if c <= 8}
+            allowed = req[2] if version >= 4 or what.startswith(
+                'enotdir_') or what.endswith('_exact') else \
+                {c for c in req[2] if c <= 8}
             if code not in allowed or code == 0:
                 viol.append({'mechanism': 'status_code_mapping',
                              'detail': f'v{version} {what}: status {code}, '
@@ -445,7 +464,8 @@ def _run_client(case, mon, viol):
                     break
                 ref.flush()
             sftp = await st
-            plan['batch'] = k
+            # with abandoned requests the replies wait for an explicit flush
+            plan['batch'] = k if not case.get('cancel') else 10 ** 6
             handles = []
             for i in range(k):
                 ot = asyncio.ensure_future(sftp.open(f'/file{i}', 'rb'))
@@ -470,6 +490,16 @@ def _run_client(case, mon, viol):
             tasks = [asyncio.ensure_future(call(i)) for i in range(k)]
             for x in tasks:
                 env.san.harness_tasks.add(x)
+            cancelled = set()
+            if case.get('cancel'):
+                # some callers give up while their requests are outstanding;
+                # the replies still arrive later and must not disturb anyone
+                await env.settle()
+                for i in rng.sample(range(k), min(case['cancel'], k - 1)):
+                    tasks[i].cancel()
+                    cancelled.add(i)
+                mon['abandoned_requests'] += len(cancelled)
+                await env.settle()
             for _ in range(200):
                 await env.settle()
                 if all(x.done() for x in tasks):
@@ -492,8 +522,9 @@ def _run_client(case, mon, viol):
                 exp = [('read', data[i:i+20]), ('stat', len(data)),
                        ('fstat', len(data))][i % 3]
                 if isinstance(r, BaseException):
-                    if hostile == 'none' and not isinstance(
-                            r, asyncio.CancelledError):
+                    if hostile == 'none' and not (
+                            isinstance(r, asyncio.CancelledError) and
+                            i in cancelled):
                         viol.append({'mechanism': 'client_call_failed',
                                      'detail': f'call {i}: {r!r}'})
                     continue
